@@ -12,7 +12,7 @@ import (
 
 // Ty is a field type of the grammar.
 type Ty struct {
-	K     string // int int8 int64 uint64 bool string myint mystr time bytes ptr slice seq array map func chan any iface ifacelit opt tparam struct tuple2 money pt
+	K     string // int int8 int64 uint64 bool string myint mystr time dur bytes ptr slice seq array map func chan any iface ifacelit opt tparam struct tuple2 money amoney pt index
 	Elem  *Ty
 	Name  string   // tparam: parameter name; struct: struct name
 	TArgs []string // struct: instantiation arguments (concrete source), empty for non-generic
@@ -34,6 +34,10 @@ var basicSrc = map[string]string{
 	"myint": "MyInt", "mystr": "MyStr", "time": "time.Time", "bytes": "[]byte", "any": "any", "iface": "ZzIface",
 	"ifacelit": "interface{ ZzFoo() string }", "func": "func(int) int", "chan": "chan int",
 	"money": "dep.Money", "pt": "dep.Pt",
+	// types that reach the declaration through an ALIASED import (`stdtime "time"`, `dp "scratch/dep"`)
+	"dur": "stdtime.Duration", "amoney": "dp.Money",
+	// a named struct without annotations or declared instances, exported and unexported fields (lib.go.txt)
+	"index": "ZzIndex",
 }
 
 // Src is the Go source of the type; sub substitutes type parameters (nil: keep their names).
@@ -83,6 +87,10 @@ func (t *Ty) Uses(set map[string]bool) {
 		set["fp"] = true
 	case "money", "pt":
 		set["dep"] = true
+	case "dur":
+		set["stdtime"] = true
+	case "amoney":
+		set["dp"] = true
 	}
 	if t.Elem != nil {
 		t.Elem.Uses(set)
@@ -145,6 +153,12 @@ func (t *Ty) GenExpr(st *Struct) string {
 		return "func(r *zzRng) dep.Pt { return dep.NewPt(zzInt(r), zzStr(r)) }"
 	case "time":
 		return "zzTime"
+	case "dur":
+		return "func(r *zzRng) stdtime.Duration { return stdtime.Duration(zzInt64(r)) }"
+	case "amoney":
+		return "func(r *zzRng) dp.Money { return dp.Money(r.Intn(1000)) }"
+	case "index":
+		return "zzGenIndex"
 	case "bytes":
 		return "zzBytes"
 	case "any":
